@@ -129,6 +129,20 @@ def judge(case):
         pass
     if describe(root, EXPLICIT + IMPLICIT) != snap_root:
         return dict(texts=texts, reason='mutating the copy changed the original')
+    # ... also through the one public way to annotate an existing node: its metadata dict, on every node (leaves and key nodes included)
+    for how, cp in list(copies(root)):
+        snap_root = describe(root, EXPLICIT + IMPLICIT)
+        for n in tree_paths(cp).values():
+            n.ayns.metadata['__annotated__'] = how
+        if describe(root, EXPLICIT + IMPLICIT) != snap_root:
+            return dict(texts=texts, how=how, reason='annotating (ayns.metadata) the nodes of the copy changed the metadata of the original')
+        snap_cp = describe(cp, EXPLICIT + IMPLICIT)
+        for n in tree_paths(root).values():
+            n.ayns.metadata['__annotated_original__'] = 1
+        if describe(cp, EXPLICIT + IMPLICIT) != snap_cp:
+            return dict(texts=texts, how=how, reason='annotating (ayns.metadata) the nodes of the original changed the metadata of the copy')
+        for n in tree_paths(root).values():
+            n.ayns.metadata.pop('__annotated_original__', None)
     return None
 
 
